@@ -6,6 +6,7 @@
    arbitrary nodes, connections and clients. *)
 From TX Require Import Model.ConnState Proofs.ConnState Proofs.SideC08 Gen.C08.
 From TX Require Import Model.ConnStateThreads Proofs.ConnStateThreads.
+From TX Require Import Model.ClientState Proofs.ClientState.
 
 (* lookup_current.  Let X's most recent successful handshake be on connection c of node n (pre ++ AuthOK n c X :: post
    with no later login of X, no other handshake on c and no close of c in post), c an open connection of n whose id no
@@ -198,3 +199,60 @@ Print Assumptions C08_cas_windows_closed.
 Theorem C08_registration_premises_satisfiable : reg_inv 7 2 2 2 moving_system.
 Proof. exact moving_system_reg_inv. Qed.
 Print Assumptions C08_registration_premises_satisfiable.
+
+(* ---------------------------------------------------------------------------------------------------------------
+   THE OTHER LOCATION RECORD: the client runtime state kept by cloud control (tunnox:runtime:client:state:<client>,
+   read by GetClientNodeID / IsClientOnNode / online status; Model/ClientState.v, riding on the same cluster model).
+   --------------------------------------------------------------------------------------------------------------- *)
+
+(* after X's most recent login on connection c of node n (no later login of X, no other handshake on c, c not closed),
+   the record names (n, c) — whatever else happens in ANY history: heartbeats of X's OLDER connections on other nodes
+   handled after the new login, the old nodes' closes / stale sweeps of those connections in any order, other clients.
+   (The record's 90 s ttl, renewed by every heartbeat, is not modelled.) *)
+Theorem C08_state_current :
+  forall (v : variant) (b : backend) (ttl X n c : N) (pre post : list event),
+  state_current_at false v b ttl X n c pre post.
+Proof. exact state_current. Qed.
+Print Assumptions C08_state_current.
+
+Theorem C08_state_current_unfolded :
+  forall (v : variant) (b : backend) (ttl X n c : N) (pre post : list event),
+  X <> 0%N ->
+  w_conns (fst (rs_run false v b ttl pre)) n c = true ->
+  quiet X c post = true ->
+  snd (rs_run false v b ttl (pre ++ AuthOK n c X :: post)) X = Some (n, c).
+Proof. exact state_current. Qed.
+Print Assumptions C08_state_current_unfolded.
+
+(* refuted for the behaviour "the heartbeat's touch also re-writes node/conn" (seeded change C08-9): a late heartbeat of
+   the old connection moves the record back to the old node *)
+Theorem C08_state_touch_moves_refuted :
+  exists X n c pre post, ~ state_current_at true current_variant redis_backend 300000 X n c pre post.
+Proof. exact touch_moves_refuted. Qed.
+Print Assumptions C08_state_touch_moves_refuted.
+
+(* non-vacuity (late heartbeats of the old connection, the old node's cleanup), and the second half of the refutation:
+   under touch_moves the old node's cleanup then matches and deletes the record of a client connected elsewhere *)
+Theorem C08_state_premises_satisfiable :
+  7%N <> 0%N /\ w_conns (fst (rs_run false current_variant redis_backend 300000 rs_wit_pre)) 2 20 = true /\
+  quiet 7 20 (rs_wit_post_deleted ++ [Close 1 10; Tick 5]) = true /\
+  snd (rs_run false current_variant redis_backend 300000
+         (rs_wit_pre ++ AuthOK 2 20 7 :: rs_wit_post_deleted ++ [Close 1 10; Tick 5])) 7 = Some (2%N, 20%N) /\
+  snd (rs_run true current_variant redis_backend 300000
+         (rs_wit_pre ++ AuthOK 2 20 7 :: [Heartbeat 1 10; Close 1 10])) 7 = None.
+Proof. exact state_premises_satisfiable. Qed.
+Print Assumptions C08_state_premises_satisfiable.
+
+(* at storage-call granularity the service's own Get-then-Set / Get-then-Delete sequences are NOT safe (HEAD code;
+   candidates reported, not yet replayed on the real service): *)
+Theorem C08_state_disconnect_window_refuted :
+  exists sched, fst (rrun (rs_old, [RDisc 7 1 10; RConnect 7 2 20]) sched) 7 = None /\
+                snd (rrun (rs_old, [RDisc 7 1 10; RConnect 7 2 20]) sched) = [RDone; RDone].
+Proof. exact disconnect_window_refuted. Qed.
+Print Assumptions C08_state_disconnect_window_refuted.
+
+Theorem C08_state_touch_window_refuted :
+  exists sched, fst (rrun (rs_old, [REnsure 7 1 10; RConnect 7 2 20]) sched) 7 = Some (1%N, 10%N) /\
+                snd (rrun (rs_old, [REnsure 7 1 10; RConnect 7 2 20]) sched) = [RDone; RDone].
+Proof. exact touch_window_refuted. Qed.
+Print Assumptions C08_state_touch_window_refuted.
